@@ -275,11 +275,14 @@ class AutoRestartTrick(Trick):
             self._restart_process()
 
     def _restart_process(self) -> None:
-        if self._is_trick_stopping:
-            return
-        self._stop_process()
-        self._start_process()
-        self.restart_count += 1
+        # Serialise restarts (event thread, debouncer thread, process watcher threads) and
+        # stop(): the lock is re-entrant, _stop_process() takes it again.
+        with self._stopping_lock:
+            if self._is_trick_stopping:
+                return
+            self._stop_process()
+            self._start_process()
+            self.restart_count += 1
 
 
 if platform.is_windows():
